@@ -934,6 +934,10 @@ def flag_family_mismatches(fns):
     return n_use, bad
 
 
+import re as _re_bo
+_BYTE_ORDER = _re_bo.compile(r"^(ext2fs_)?((le|be)(16|32|64)_to_cpu|cpu_to_(le|be)(16|32|64)|swab(16|32|64))$")
+
+
 def linear_form(e, fn=None, depth=1):
     """{name: coefficient, 1: constant} of an expression built from variables, constants, + and - (None otherwise);
     single-assignment locals are looked through `depth` levels"""
@@ -955,6 +959,8 @@ def linear_form(e, fn=None, depth=1):
     if k == "m":
         p = T.path(e)
         return {p: 1} if p else None
+    if k == "c" and len(e.get("a", [])) == 1 and _BYTE_ORDER.match(e.get("fn") or ""):
+        return linear_form(e["a"][0], fn, depth)         # a value in the other byte order is the same number
     if k == "b" and e.get("o") in ("+", "-"):
         l, r = linear_form(e.get("l"), fn, depth), linear_form(e.get("r"), fn, depth)
         if l is None or r is None:
